@@ -1,6 +1,154 @@
-From Coq Require Import ZArith NArith List Bool.
-From CL Require Import Base.Sx Base.Res Base.Str Model.Channels Model.Serializer.
-Import ListNotations.
+(* C16 — serializer writes exactly the requested translations, in reference order.
 
-Example C16_example_slice : pyslice (of_ascii [1;2;3;4]) 1 (-1) = of_ascii [2;3].
+   Entity level over Model/Serializer.v (serializer.py) and Model/Channels.v
+   (merge.py): reference and old localization are the entry lists their walk()
+   yields; [wrap] is Entity.wrap of the reference entities (parameter; the model's
+   own [apply_wrap] — base slices, Fluent comment + raw, Android oracle table —
+   satisfies the contract, C16_wrap_contract).  CEntity = an entity that is no
+   placeholder ([is_cent]).
+   Hypotheses of C16_entities / C16_values / C16_idempotent: [uniq (nj l)] — the
+   non-junk entries of the reference / old file have distinct keys and distinct
+   whitespace objects; new_data is a dict (distinct keys).  C16_nothing_else holds
+   for all inputs.
+
+   The re-parse clauses ("the output parses without junk", idempotence through the
+   real parser) need the block theorems of C02; they are checked by the harness
+   oracle on every case.  C16_idempotent is the entity-level statement: for ANY
+   entry list X with the entities of the output (such as a junk-free re-parse).
+   Known findings: C16_wrap_valueless_refuted (.inc `#define KEY` without value). *)
+From Coq Require Import ZArith NArith List Bool Arith.
+From CL Require Import Base.Sx Base.Res Base.Str Model.AddRemove Model.Channels
+                       Proofs.ChannelsProofs Proofs.ChannelsSpec Model.Serializer
+                       Proofs.SerializerProofs Proofs.SerializerSpec Proofs.SerializerFinal.
+Import ListNotations.
+Local Open Scope nat_scope.
+
+(* the bytes are the concatenation of the entry texts of serialize_entries *)
+Theorem C16_output : forall wrap name reference old nd txt,
+  serialize wrap name reference old nd = Ok txt ->
+  exists out, serialize_entries wrap reference old nd = Ok out /\ txt = concat (map c_text out).
+Proof.
+  intros wrap name reference old nd txt. unfold serialize.
+  destruct (get_parser name) as [[p|]|]; cbn; try discriminate.
+  destruct (serialize_entries wrap reference old nd) as [out|]; cbn; [|discriminate].
+  intros H; inversion H; subst. exists out. auto.
+Qed.
+
+(* the keys of the output entities are exactly the reference keys, in reference
+   order, that have a new value, or no entry in new_data and an old entity *)
+Theorem C16_entities : forall wrap reference old nd out,
+  uniq (nj reference) -> uniq (nj old) -> NoDup (map fst nd) -> wrap_ok wrap ->
+  serialize_entries wrap reference old nd = Ok out ->
+  map c_key (filter is_cent out) =
+  filter (fun s => match od_get str_eqb s nd with
+                   | Some (Some _) => true
+                   | Some None => false
+                   | None => match old_cent old s with Some _ => true | None => false end
+                   end)
+         (map c_key (filter is_entity reference)).
+Proof.
+  intros wrap reference old nd out H1 H2 H3 H4.
+  exact (entities_keys_thm wrap reference old nd H1 H2 H3 H4 out).
+Qed.
+
+(* each carries the new value if one was given (it is wrap(reference entity, value)),
+   the old entity otherwise; a key marked for removal has none *)
+Theorem C16_values : forall wrap reference old nd out,
+  uniq (nj reference) -> uniq (nj old) -> NoDup (map fst nd) -> wrap_ok wrap ->
+  serialize_entries wrap reference old nd = Ok out ->
+  forall e, In e out -> is_cent e = true ->
+  In (c_key e) (map c_key (filter is_entity reference)) /\
+  match od_get str_eqb (c_key e) nd with
+  | Some (Some raw) => exists r, od_get str_eqb (c_key e) (ref_mapping reference) = Some r /\
+                                 wrap r raw = Ok e
+  | Some None => False
+  | None => old_cent old (c_key e) = Some e
+  end.
+Proof.
+  intros wrap reference old nd out H1 H2 H3 H4.
+  exact (entities_values_thm wrap reference old nd H1 H2 H3 H4 out).
+Qed.
+
+(* the model's wrap builds an entity that is no placeholder, has the reference key and
+   carries exactly the raw value given *)
+Theorem C16_wrap_contract : forall contents w key raw e,
+  apply_wrap contents w key raw = Ok e -> c_kind e = CEntity /\ c_key e = key /\ c_val e = raw.
+Proof. exact apply_wrap_ok. Qed.
+
+(* nothing else, for all inputs: every output entry is no placeholder and is either a
+   non-entity entry of the reference (comment, whitespace, section; never a reference
+   entity, hence no reference value), or a non-junk entry of the old file whose key, if
+   it is an entity, is a reference key not marked for removal (no obsolete key, no
+   removed key, no junk), or wrap(reference entity, new value) *)
+Theorem C16_nothing_else : forall wrap reference old nd out,
+  serialize_entries wrap reference old nd = Ok out ->
+  forall e, In e out ->
+    is_placeholder e = false /\
+    ((In e reference /\ is_junk e = false /\ is_entity e = false) \/
+     (In e old /\ is_junk e = false /\
+      (is_entity e = true ->
+       In (c_key e) (map fst (ref_mapping reference)) /\
+       od_get str_eqb (c_key e) nd <> Some None)) \/
+     (exists r raw, In r reference /\ is_entity r = true /\
+                    In (c_key r, Some raw) nd /\ wrap r raw = Ok e)).
+Proof. exact serialize_sources. Qed.
+
+(* serializing again, with no new data, any entry list that has the entities of the
+   output yields the same entities *)
+Theorem C16_idempotent : forall wrap reference old nd out X out2,
+  uniq (nj reference) -> uniq (nj old) -> NoDup (map fst nd) -> wrap_ok wrap ->
+  serialize_entries wrap reference old nd = Ok out ->
+  uniq (nj X) -> filter is_cent (nj X) = filter is_cent out ->
+  serialize_entries wrap reference X [] = Ok out2 ->
+  filter is_cent out2 = filter is_cent out.
+Proof. exact serialize_idempotent. Qed.
+
+Theorem C16_unsupported : forall wrap name reference old nd, get_parser name = Ok None ->
+  serialize wrap name reference old nd = Raise NotSupported.
+Proof. intros wrap name reference old nd H. unfold serialize. rewrite H. reflexivity. Qed.
+
+(* ---- non-vacuity: a concrete run ---------------------------------------------------------- *)
+Definition s (l : list nat) : str := of_ascii l.
+(* reference  "a = EN\n# c\nb = EN2\n"   old  "a = L\nz = obs\n"   new_data {b: "N"} *)
+Definition ex_contents := s [97;32;61;32;69;78;10;35;32;99;10;98;32;61;32;69;78;50;10].
+Definition ex_ref :=
+  [mkc CEntity (s [97]) (s [97;32;61;32;69;78]) (s [69;78]) 1; mkc CWhite [] (s [10]) [] 2;
+   mkc CEntity (s [98]) (s [35;32;99;10;98;32;61;32;69;78;50]) (s [69;78;50]) 3;
+   mkc CWhite [] (s [10]) [] 4].
+Definition ex_wraps : list (nat * wrapinfo) :=
+  [(1, WBase (0, 6)%Z (Some (4, 6)%Z) None); (3, WBase (11, 18)%Z (Some (15, 18)%Z) (Some (7, 10)%Z))].
+Definition ex_old :=
+  [mkc CEntity (s [97]) (s [97;32;61;32;76]) (s [76]) 5; mkc CWhite [] (s [10]) [] 6;
+   mkc CEntity (s [122]) (s [122;32;61;32;111;98;115]) (s [111;98;115]) 7;
+   mkc CWhite [] (s [10]) [] 8].
+Definition ex_nd : new_data_t := [(s [98], Some (s [78]))].
+
+(* "a = L\n# c\nb = N\n" *)
+Example C16_example_run :
+  serialize (wrap_by_id ex_contents ex_wraps) (s [102;46;112;114;111;112;101;114;116;105;101;115])
+            ex_ref ex_old ex_nd =
+  Ok (s [97;32;61;32;76;10; 35;32;99;10;98;32;61;32;78;10]).
 Proof. vm_compute. reflexivity. Qed.
+
+Example C16_example_hyps :
+  uniq (nj ex_ref) /\ uniq (nj ex_old) /\ NoDup (map fst ex_nd) /\
+  wrap_ok (wrap_by_id ex_contents ex_wraps).
+Proof.
+  split; [|split; [|split; [|apply wrap_by_id_ok]]]; try split; cbn;
+    repeat (apply NoDup_cons; [cbn; intuition discriminate|]); apply NoDup_nil.
+Qed.
+
+(* known finding: `#define foo` (no value) has val_span (-1,-1); Entity.wrap then copies the
+   rest of the reference file:  "#define foo\n#define bar BAR\n", wrap(foo, "x") *)
+Theorem C16_wrap_valueless_refuted :
+  exists contents span key raw e,
+    apply_wrap contents (WBase span (Some (-1, -1)%Z) None) key raw = Ok e /\
+    pyslice contents (fst span) (snd span) = s [35;100;101;102;105;110;101;32;102;111;111] /\
+    c_text e = s [35;100;101;102;105;110;101;32;102;111;111;10;
+                  35;100;101;102;105;110;101;32;98;97;114;32;66;65;82;120].
+Proof.
+  exists (s [35;100;101;102;105;110;101;32;102;111;111;10;
+             35;100;101;102;105;110;101;32;98;97;114;32;66;65;82;10]),
+         (0, 11)%Z, (s [102;111;111]), (s [120]).
+  eexists. split; [reflexivity|]. split; vm_compute; reflexivity.
+Qed.
